@@ -259,12 +259,14 @@ class Explorer:
         self.max_depth = max_depth
         self.cache = {}
 
-    def run(self, qualname, setup, summaries=None, key=None, no_inline=()):
+    def run(self, qualname, setup, summaries=None, key=None, no_inline=(), hooks=None):
         ck = (qualname, key)
         if key is not None and ck in self.cache:
             return self.cache[ck]
         I = Interp(self.prog, summaries={**self.summaries, **(summaries or {})}, max_depth=self.max_depth)
         I.no_inline |= set(no_inline)
+        if hooks:
+            I.method_hooks.update(hooks)
         res = I.explore(qualname, setup)
         if self.report is not None:
             self.report.absorb_stats(I)
@@ -514,3 +516,112 @@ def eval_lin_n(lin, n, pvar=PVAR):
     if not all(t == term for t, _ in lin[0]):
         return None
     return sum(c * n for t, c in lin[0]) + lin[1]
+
+
+# ----------------------------------------------------------------------------------------------
+# CNF slots, optimizer summary, WCNF items
+# ----------------------------------------------------------------------------------------------
+def cnf_value(f):
+    """The integer CNF produced for formula f (meaning established by CNF.* of C15): an abstract clause family."""
+    return ElemV(("cnf", f), "cnf")
+
+
+def cnf_dict(I: Interp, fn, slot0=None):
+    b = I.fresh_var("n")
+    d = HDict(each=[("each", b, KEYS_D, PTRUE, ElemV(b, "key"), cnf_value(fn(b)))] if fn else [])
+    if slot0 is not None:
+        d.entries[0] = cnf_value(slot0)
+    return I.alloc(d)
+
+
+def rc2_state(I: Interp, v=False, f=True, nf=True, query_slots=False):
+    """The CNF slots of the persistent store as `belief_base_to_cnf(v, f, nf)` leaves them (CNF.roles), optionally with
+    the query stored in slot 0 of the v/f dicts."""
+    return {
+        "pool": I.alloc(HOpaque("IDPool")),
+        "v_cnf_dict": cnf_dict(I, verification if v else None, verification(QUERY) if query_slots else None),
+        "f_cnf_dict": cnf_dict(I, falsification if f else None, falsification(QUERY) if query_slots else None),
+        "nf_cnf_dict": cnf_dict(I, material if nf else None),
+    }
+
+
+def summary_goal2intcnf(I, fi, args, kwargs, node):
+    goal = args[1] if len(args) > 1 else kwargs.get("goal")
+    f = None
+    if isinstance(goal, ElemV) and goal.role == "goal":
+        f = goal.var[1] if goal.var[0] == "goal" else None
+        if goal.var[0] == "at":
+            inner = goal.var[1]
+            f = inner[1] if isinstance(inner, tuple) and inner[0] == "goal" else None
+    I.log("summary.goal2intcnf", node, goal=goal, formula=f)
+    if f is None:
+        return Sym(("cnf?", desc(goal)))
+    return cnf_value(f)
+
+
+def summary_query_to_cnf(I, fi, args, kwargs, node):
+    q = args[1] if len(args) > 1 else kwargs.get("query")
+    p = cond_parts(I, q)
+    I.log("summary.query_to_cnf", node, query=q)
+    if p is None:
+        return Sym(("query_to_cnf", desc(q)))
+    a, b = p
+    return I.new_list([cnf_value(("and", (a, b))), cnf_value(("and", (a, ("not", b))))])
+
+
+def summary_create_optimizer(I, fi, args, kwargs, node):
+    I.log("summary.create_optimizer", node, state=args[0] if args else None)
+    return ElemV(("optimizer", I.fresh_id("opt")), "optimizer")
+
+
+def hook_mcs(I, v, args, kwargs, node):
+    """Optimizer.minimal_correction_subsets(wcnf, ignore, deadline): summary established by MCS.* of C15 - the family
+    of inclusion-minimal falsified sets among the non-ignored soft owners under the hard items; empty iff the hard
+    items are unsatisfiable; may raise TimeoutError when a deadline is given."""
+    names = ["wcnf", "ignore", "deadline"]
+    bound = dict(zip(names, args))
+    bound.update(kwargs)
+    w = bound.get("wcnf")
+    cid = I.fresh_id("mcs")
+    snap = I.snapshot(w)
+    ign = bound.get("ignore")
+    ignv = view(I.state, ign) if ign is not None else None
+    dl = bound.get("deadline", Const(None))
+    I.log("mcs", node, cid=cid, wcnf=w, snap=snap, ignore=ign, ignore_view=ignv, deadline=dl)
+    if not (isinstance(dl, Const) and dl.value is None):
+        if I.ctx.decide(("mcs-timeout", cid)):
+            from .absint import RaiseSig
+            from .absvals import ExcV
+
+            I.log("raise.mcs", node, cid=cid)
+            raise RaiseSig(ExcV("TimeoutError", ("mcs", cid)), node)
+    return ElemV(("mcs", cid), "coll", "set", "key")
+
+
+RC2_SUMMARIES = {
+    "inference.tseitin_transformation.TseitinTransformation.goal2intcnf": summary_goal2intcnf,
+    "inference.tseitin_transformation.TseitinTransformation.query_to_cnf": summary_query_to_cnf,
+    "inference.optimizer.create_optimizer": summary_create_optimizer,
+}
+RC2_HOOKS = {("optimizer", "minimal_correction_subsets"): hook_mcs}
+
+
+def norm_witem(item):
+    """Normalise a WCNF item: 'every clause of CNF(f)' becomes the formula f itself."""
+    k = item[0]
+    if k == "each":
+        _, b, fam, g, inner = item
+        if fam[0] == "members" and isinstance(fam[1], tuple) and fam[1][:1] == ("cnf",) and g == PTRUE:
+            f = fam[1][1]
+            if inner == ("clause", b):
+                return ("f", f)
+            if inner[0] == "w" and inner[1] == ("clause", b):
+                return ("soft", ("f", f), inner[2])
+        return ("each", b, fam, g, norm_witem(inner))
+    return item
+
+
+def wcnf_view(snap):
+    """(hard items, soft items) of a WCNF snapshot, normalised."""
+    assert snap[0] == "wcnf"
+    return [norm_witem(i) for i in snap[2]], [norm_witem(i) for i in snap[3]]
